@@ -753,15 +753,19 @@ def tier_c_folds(run, thorough):
     for (n_rdm, n_cond) in shapes:
         for (tag, rg), (_t, pg) in zip(_label_variants(n_rdm), _label_variants(n_cond)):
             _all_gens(dict(n_rdm=n_rdm, n_cond=n_cond, rg=rg, pg=pg), reg_as(tag), both + ([(True, 3)] if thorough else []))
-    # (2) containers, typed data, units, missing entries: a design with groups of copies on both factors
-    for (n_rdm, n_cond) in shapes[:3]:
-        base = dict(n_rdm=n_rdm, n_cond=n_cond, rg=_groupings(n_rdm)[-1], pg=_groupings(n_cond)[-1])
-        for tag, extra in (('tuple-descriptors', dict(container='tuple')),
-                           ('int16-data', dict(dtype='int16')), ('int32-data', dict(dtype='int32', container='array')),
-                           ('float32-data', dict(dtype='float32')),
-                           ('tiny-units', dict(scale=1e-20)), ('huge-units', dict(scale=1e10, container='array')),
-                           ('nan-entries', dict(nan=True))):
-            _all_gens(base, reg_as(tag, **extra), both)
+    # (2) containers, typed data, units, missing entries: a design with groups of copies on both factors and one with
+    # singleton groups (int32: values beyond the int16 range)
+    for i, (n_rdm, n_cond) in enumerate(shapes[:3]):
+        designs = [dict(n_rdm=n_rdm, n_cond=n_cond, rg=_groupings(n_rdm)[-1], pg=_groupings(n_cond)[-1])]
+        if thorough or i == 0:
+            designs.append(dict(n_rdm=n_rdm, n_cond=n_cond, rg=list(range(n_rdm)), pg=list(range(n_cond))))
+        for base in designs:
+            for tag, extra in (('tuple-descriptors', dict(container='tuple')),
+                               ('int16-data', dict(dtype='int16')), ('int32-data', dict(dtype='int32', container='array', off=100000)),
+                               ('float32-data', dict(dtype='float32')),
+                               ('tiny-units', dict(scale=1e-20)), ('huge-units', dict(scale=1e10, container='array')),
+                               ('nan-entries', dict(nan=True))):
+                _all_gens(base, reg_as(tag, **extra), both)
     # (3) descriptor arguments left at their defaults (grouping by 'index'); default number of folds
     for (n_rdm, n_cond) in shapes[:3] + ((12, 10),):
         base = dict(n_rdm=n_rdm, n_cond=n_cond, rg=list(range(n_rdm)), pg=list(range(n_cond)), desc='default')
@@ -1087,7 +1091,7 @@ def orc_noninterference_boot(case):
 
 def tier_c_noninterference(run, thorough):
     bd = Bounded(run, 'C05/noninterference', 'C05/crossval/oracle/noninterference',
-                 'crossval with 1..3 weighted models (2 basis RDMs each), recording / frozen fitters; n_rdm 4..5, n_cond 8..9, '
+                 'crossval with 1..3 weighted models (2 basis RDMs each), recording / frozen fitters; n_rdm 4..6, n_cond 8..12, '
                  'k_rdm, k_pattern in {1,2}, methods cosine/corr; perturbation of test-only resp. non-test entries; every fold'
                  '; SWEEPS: RDM / condition groups with copies (interleaved labels), k up to 3, shuffled folds, float32 / integer data, '
                  'units x1e-20 / x1e+10, select / interpolate models with their default fitters (also spearman, tau-a)',
@@ -1110,12 +1114,12 @@ def tier_c_noninterference(run, thorough):
     variants = [('grouped-copies', dict(n_rdm=6, n_cond=12, rg=rg6, pg=pg12)),
                 ('grouped-copies,shuffled-folds', dict(n_rdm=6, n_cond=12, rg=rg6, pg=pg12, random=True)),
                 ('shuffled-folds', dict(n_rdm=5, n_cond=9, random=True)),
-                ('float32-data', dict(n_rdm=4, n_cond=8, dtype='float32')),
-                ('integer-data', dict(n_rdm=4, n_cond=8, dtype='int32')),
-                ('tiny-units', dict(n_rdm=4, n_cond=8, scale=1e-20)),
-                ('huge-units', dict(n_rdm=4, n_cond=8, scale=1e10, random=True)),
-                ('select-model', dict(n_rdm=4, n_cond=8, model='select')),
-                ('interpolate-model', dict(n_rdm=4, n_cond=8, model='interpolate'))]
+                ('float32-data', dict(n_rdm=4, n_cond=9, dtype='float32')),
+                ('integer-data', dict(n_rdm=4, n_cond=9, dtype='int32')),
+                ('tiny-units', dict(n_rdm=4, n_cond=9, scale=1e-20)),
+                ('huge-units', dict(n_rdm=4, n_cond=9, scale=1e10, random=True)),
+                ('select-model', dict(n_rdm=4, n_cond=9, model='select')),
+                ('interpolate-model', dict(n_rdm=4, n_cond=9, model='interpolate'))]
     for seed in range(2 if thorough else 1):
         for tag, extra in variants:
             kind = extra.get('model', 'weighted')
@@ -1139,8 +1143,8 @@ def tier_c_noninterference(run, thorough):
                  'bootstrap_crossval (N=2 samples, n_cv=2) with 1..2 weighted / select models, recording / frozen fitters; n_rdm 6, '
                  'n_cond 12..14, plain and grouped descriptors, boot_type both / pattern / rdm, k_rdm in {1,2}, k_pattern in {1,2}; '
                  'perturbation of the entries outside a fit\'s training data resp. of training-only entries; %s' %
-                 ('every 3rd fit, 3 seeds' if thorough else '1-2 fits per configuration, reduced grid'), function='bootstrap_crossval')
-    for seed in range(3 if thorough else 1):
+                 ('every 5th fit, 2 seeds' if thorough else '1-2 fits per configuration, reduced grid'), function='bootstrap_crossval')
+    for seed in range(2 if thorough else 1):
         for tag, extra in (('plain', dict(n_rdm=6, n_cond=12)),
                            ('grouped', dict(n_rdm=6, n_cond=14, rg=[1, 0, 2, 3, 0, 4], pg=[5, 0, 1, 2, 3, 4, 5, 6, 7, 8, 9, 0, 10, 11]))):
             for boot_type in ('both', 'pattern', 'rdm'):
@@ -1152,7 +1156,7 @@ def tier_c_noninterference(run, thorough):
                                              or boot_type != 'both' and (k_rdm, k_pattern) != (2, 2)):
                             continue
                         n_fit = 2 * 2 * k_rdm * k_pattern * n_model
-                        for fit in (range(0, n_fit, 3) if thorough else ((1, n_fit - 2) if (k_rdm, k_pattern) == (2, 2) else (n_fit // 2,))):
+                        for fit in (range(seed, n_fit, 5) if thorough else ((1, n_fit - 2) if (k_rdm, k_pattern) == (2, 2) else (n_fit // 2,))):
                             bb.check(orc_noninterference_boot,
                                      dict(extra, seed=seed + 40, n_model=n_model, model=kind, k_rdm=k_rdm, k_pattern=k_pattern,
                                           method=method, boot_type=boot_type, fit=fit), f'boot-{boot_type},{tag}')
